@@ -36,6 +36,7 @@ def build_spec(sn, same=False):
         K(sn, 'B12'): fn('NOT', fn('ISTEXT', cell(sn, 'A3'))), K(sn, 'B13'): fn('AND', cell(sn, 'A5'), fn('ISNUMBER', cell(sn, 'A2'))),
         K('T', 'A1'): op('+', cell(sn, 'A1'), num(1)),
         # a range with several unpopulated cells (they exist only through the range node)
+        K(sn, 'F19'): fn('SUM', rng(sn, 'D19:E21')),            # an otherwise unpopulated block (given as an input in the 'merged' cases)
         K(sn, 'A20'): const(('n', 1.0)), K(sn, 'A22'): const(('n', 2.0)), K(sn, 'B20'): fn('SUM', rng(sn, 'A20:A25')),
         K(U, 'A1', C): const(('n', 10.0)), K(U, 'B1', C): op('*', cell(sn, 'A1'), cell(U, 'A1', C)), K(U, 'A3', C): const(('t', 'other book')),
     }
@@ -60,6 +61,8 @@ def cases(tier):
                         yield ['write', sn, origin, over, target, 'same-sheet-name']
                     if sn in ('S', 'x-y') and target != 'disk' and origin == 'loads':
                         yield ['write', sn, origin, over, target, 'prewrite']
+                    if sn in ('S', 'lower') and target == 'loaded' and origin == 'loads':
+                        yield ['write', sn, origin, over, target, 'merged']
 
 
 def convert(v):
@@ -81,6 +84,7 @@ def convert(v):
 def run_case(case):
     _, sn, origin, over, target = case[:5]
     same = len(case) > 5 and case[5] == 'same-sheet-name'
+    merged = len(case) > 5 and case[5] == 'merged'          # the loaded sheet has merged cells inside an overridden block
     prewrite = len(case) > 5 and case[5] == 'prewrite'      # a solution with the sparse range overridden is written first, into the same books
     import formulas, openpyxl
     import numpy as np
@@ -90,7 +94,7 @@ def run_case(case):
     from xl.evalcell import exc_name
     spec = build_spec(sn, same)
     U = sn if same else 'U'
-    desc = dict(sheet=sn, origin=origin, over=over, target=target, same=same, prewrite=prewrite)
+    desc = dict(sheet=sn, origin=origin, over=over, target=target, same=same, prewrite=prewrite, merged=merged)
     fails, ex, oc = [], 0, set()
     cwd = os.getcwd()
     with X.Scratch() as d:
@@ -101,6 +105,10 @@ def run_case(case):
                 wb = openpyxl.load_workbook(p)
                 wb[sheet][coord] = 'sentinel'
                 wb.save(p)
+            if merged:
+                wbm = openpyxl.load_workbook(paths[B])
+                wbm[sn].merge_cells('D20:E20')
+                wbm.save(paths[B])
             os.chdir(d)
             if origin == 'loads':
                 m = formulas.ExcelModel().loads(B, C).finish()
@@ -108,6 +116,8 @@ def run_case(case):
                 outs = [X.lib_id(B, sn, c) for c in ('B6', 'B8', 'G8:H9', 'J1:K2', 'B3', 'B9', 'B13', 'M1:M3')] + [X.lib_id(B, 'T', 'A1'), X.lib_id(C, U, 'B1')]
                 m = formulas.ExcelModel().from_ranges(*outs).finish()
             inputs = {X.lib_id(B, sn, 'A1'): 99, X.lib_id(B, sn, 'A3'): '=y'} if over else {}
+            if merged:
+                inputs[X.lib_id(B, sn, 'D19:E21')] = [[1, 2], [3, 4], [5, 6]]
             sol = m.calculate(inputs)
             ex += 1
             sol_r = m.calculate(dict(inputs, **{X.lib_id(B, sn, 'A20:A25'): [[11], [12], [13], [14], [15], [16]]})) if prewrite else None
@@ -129,6 +139,15 @@ def run_case(case):
                 diff = m.compare(*files, solution=sol)
                 if diff:
                     fails.append(Fail('compare-reports-difference', got=str(diff[:2])[:200], exp='[]', **desc))
+                # compare() without a solution argument calculates the model itself: whatever was calculated last must not show
+                out2 = os.path.join(d, 'out2')
+                m.write(solution=m.calculate(), dirpath=out2)
+                files2 = [os.path.join(out2, f) for f in sorted(os.listdir(out2))]
+                m.calculate({X.lib_id(B, sn, 'A1'): 1234})
+                m.calculate(outputs=[X.lib_id(B, 'T', 'A1')])
+                diff = m.compare(*files2)
+                if diff:
+                    fails.append(Fail('compare-reports-difference', got=str(diff[:2])[:200], exp='[]', no_solution_argument=True, **desc))
                 for f1 in files:                # each written file on its own
                     diff = m.compare(f1, solution=sol)
                     if diff:
@@ -194,6 +213,8 @@ def run_case(case):
                     n_cells += 1
                     want = convert(val[i, j])
                     c = ws[0][coord]
+                    if type(c).__name__ == 'MergedCell':
+                        continue            # the read-only part of a merged cell cannot hold a value
                     got = c.value
                     ok = any((got == w and type(got) == type(w)) or (isinstance(w, float) and isinstance(got, (int, float)) and not isinstance(got, bool) and got == w)
                              or (isinstance(w, int) and not isinstance(w, bool) and isinstance(got, (int, float)) and not isinstance(got, bool) and got == w) for w in want) \
